@@ -38,6 +38,8 @@ const TIGHT_OPS = ['s.trim()', 's?.trim()', 'a?.b.concat(c)', 'f?.(x).trim()', '
 const TIGHT_EXPR = ['a ?? @@', '@@ ?? a', 'a ?? @@ ?? b', 'a || @@', '@@ || a', 'a && @@', '@@ && a', 'new @@', 'new @@()', '@@`t`', '@@ ** 2', '2 ** @@', '-@@', '+@@', '~@@', 'typeof @@', 'void @@', 'delete @@', '@@.p', '@@[0]', '@@()', '@@?.p', '@@?.()', 'a ? @@ : b', '@@ ? a : b', 'a ? b : @@', 'a, @@', '@@, a', 'y = @@', 'y ??= @@', 'y ||= @@', '@@ in o', 'a in @@', '@@ instanceof X', 'a < @@', '@@ < a', 'a == @@', 'a + @@', '@@ + a', 'a - @@', '@@ - a', 'a * @@', '!@@', 'x => @@', 'async x => @@', '[@@]', '[...@@]', 'h(...@@)', '({p: @@})', '({...@@})', '`${@@}`', 'o[@@]', 'a?.[@@]', 'a?.(@@)', 'a?.b(@@)', 'y = z = @@', '@@ ? @@ : @@', 'a ?? @@ + b', 'a | @@', 'a ^ @@ & b']
 const TIGHT_STMT = ['class K extends @@ {}', 'function f() { return class extends @@ {} }', 'function f() { for (x of @@) ; }', 'function f() { for (x in @@) ; }', 'function f() { for (x = @@; ;) break }', 'function f() { throw @@ }', 'function f() { if (@@) ; else ; }', 'function f() { while (@@) break }', 'function f() { do ; while (@@) }', 'function f() { switch (@@) { case @@: } }', 'function f() { with (@@) ; }', 'export default @@', 'async function f() { return await @@ }', 'async function f() { await @@ ?? a }', 'function* g() { yield @@ }', 'function* g() { yield* @@ }', 'function* g() { a ?? (yield @@) }', 'function f() { var {p = @@} = o }', 'function f(p = @@) {}', 'function f() { return { [@@]: 1 } }', 'function f() { return class { [@@]() {} static p = @@; q = @@ } }', 'function f() { lbl: @@ }', 'function f() { @@ }', 'function f() { @@\n;[a] }', 'function f() { a\n@@ }', 'function f() { return@@ }'.replace('return@@', 'return(@@)')]
 
+const { lexicalTokens, LEX_PLACES } = F
+
 module.exports = mk({
   id: 'C08',
   families: ['A', 'B', 'C', 'G', 'M', 'S', 'T', 'H', 'Q', 'R', 'N', 'L'],
@@ -52,6 +54,10 @@ module.exports = mk({
     for (const ctx of tight) for (const op of tightOps) for (const config of (tier === 'thorough' ? ['FULL', 'COMMENTS', 'METHODS_ONLY'] : ['FULL'])) {
       r.stats.states++; r.stats.transitions++
       leaves.push({ fam: 'tight', key: 'tight¦' + ctx + '¦' + op + '¦' + config, code: ctx.split('@@').join(op), config, desc: 'tight ctx' })
+    }
+    for (const tok of lexicalTokens(tier)) for (const place of LEX_PLACES) for (const config of ['FULL', 'COMMENTS']) {
+      r.stats.states++; r.stats.transitions++
+      leaves.push({ fam: 'lexical', key: 'lex¦' + place.length + place.slice(40, 60) + '¦' + tok + '¦' + config, code: place.split('@@').join(tok), config, desc: 'lexical token' })
     }
     // inputs that mention identifiers with the reserved prefix: either refused, or the content must still load
     const e = require('./C06.js').familyE()
